@@ -366,6 +366,8 @@ func child() {
 		scriptedStdioClientWorkload(iters)
 	} else if parts[0] == "lifecycle" {
 		lifecycleWorkload(parts[1], iters, seed)
+	} else if parts[0] == "capflip" {
+		capFlipWorkload(parts[1], iters, seed)
 	} else if parts[0] == "clientmut" {
 		clientMutWorkload(kind, iters, seed)
 	} else if parts[0] == "server" {
@@ -396,7 +398,8 @@ func main() {
 	}
 	workloads := []string{"server:S-json", "server:S-sse", "server:L-sse", "server:stdio", "client:S-json", "client:S-sse", "client:L-sse", "client:stdio", "client:stdio-scripted",
 		"clientmut:S-json", "clientmut:S-sse", "clientmut:L-sse", "clientmut:stdio",
-		"lifecycle:sse", "lifecycle:streamable", "lifecycle:stdio", "lifecycle:clients"}
+		"lifecycle:sse", "lifecycle:streamable", "lifecycle:stdio", "lifecycle:clients",
+		"capflip:stateful", "capflip:stateless", "capflip:L-sse", "capflip:stdio"}
 	procs := []int{2, 4, 16}
 	reps := r.Pick(2, 5)
 	r.Sample(map[string]interface{}{"workloads": workloads, "gomaxprocs": procs, "repetitions": reps})
@@ -468,6 +471,9 @@ func main() {
 	if r.Counter("life_shutdown_calls") == 0 || r.Counter("life_requests_answered_2xx") == 0 {
 		r.Inconclusive("lifecycle workloads: no Start / Shutdown round served a request and reached the stop entry point")
 	}
+	if r.Counter("capflip_rounds_capability_changing_registration_overlapped_a_handshake") == 0 {
+		r.Inconclusive("capflip workloads: no round in which a capability-changing registration overlapped an initialize handshake")
+	}
 	if !r.Quick() {
 		suiteUnderRace(r, all, harnessOnly)
 	}
@@ -478,7 +484,7 @@ func main() {
 		r.Inconclusive(fmt.Sprintf("race report without any library frame (harness or runtime): %s x%d", pair, n))
 	}
 	r.Count("distinct_race_pairs_in_library", int64(len(all)))
-	r.Finish("race-detector build of the harness; per child one workload x GOMAXPROCS in {2,4,16}: servers (Streamable JSON / SSE, legacy SSE with 3 ms keep-alives, stdio) serving 6 sessions x 4 goroutines of calls while entries are registered and unregistered, notifications are sent and broadcast, roots requests are issued, listening streams (plain and resuming with Last-Event-ID while senders are pushing to the session) and sessions come and go, and handlers read and write the Session object they were handed; clients (Streamable JSON / SSE, legacy SSE, stdio) used from 6 calling goroutines while notification handlers and the roots provider change, state getters are read, the server pushes notifications, and TerminateSession / Close run with calls in flight; clients of the same four kinds holding a DefaultRootsProvider (clientmut:*, mutators.go) whose application goroutines AddRoot / RemoveRoot (unique URIs, no I/O or shared atomics in those goroutines), swap SetRootsProvider between the provider and two delegating wrappers, register / unregister notification handlers for the methods that are arriving, send roots/list_changed, read the getters (stdio: process info, RestartProcess every other round) while 4 goroutines x 12 calls make the server issue roots/list (tool rootsprobe returns the URIs ListRoots gave it) and the server pushes notifications, and server-side goroutines register / unregister notification handlers on all three server kinds, resource templates, resources lists, tools and read GetTools / GetTool / GetActiveSessions / SendFilteredNotification. Value oracle for roots snapshots (provider level: each GetRoots seen by the delegating wrapper; server level: each rootsprobe answer, window = around CallTool): no URI twice, only URIs whose AddRoot began before the answer was received, every URI whose AddRoot returned before the request was issued and whose RemoveRoot had not begun when the answer was received, no URI whose RemoveRoot returned before the request was issued (monotonic-clock stamps, 20 us slack counted as concurrent). Lifecycle entry points (lifecycle:*, lifecycle.go): per round a fresh SSEServer (plain / WithHTTPServer) or Server (WithServerAddress / WithCustomServer) on a free loopback port; goroutine A runs the blocking Start, goroutine B (PRNG-chosen 0-400 us delay, port found by a dial loop, no harness synchronisation after A) sends raw HTTP requests (handshake, tools/list, tools/call, optionally an open event stream) and calls the stop entry point (SSEServer.Shutdown; the caller-owned http.Server for WithCustomServer), goroutine C registers / unregisters tools and prompts and sends / broadcasts notifications throughout; schedules serve-shutdown, shutdown-at-once (before the listener is up, then again), shutdown-x2 (two concurrent), restart (Start after Shutdown, same object), two-starts; StdioServer.StartWithContext on the real stdin/stdout of its own race-built process with the context cancelled from another goroutine while tools are registered and a library client overlaps Close / Close x2 / RestartProcess with calls; one client object of each HTTP kind with Initialize | TerminateSession, Initialize | Close, Close | Close, TerminateSession | Close, TerminateSession x2 from different goroutines. Rounds are counted per (server kind x variant x schedule); a bind failure or watchdog expiry makes the round inconclusive; behavioural observations (Shutdown returned nil but the port still accepts, Start still blocked) are counted notes only. Every 'WARNING: DATA RACE' block is parsed from the GORACE log; reports are de-duplicated by the pair of innermost library functions. Distinct = (workload, GOMAXPROCS) that completed; for clientmut additionally (kind, GOMAXPROCS) with at least one roots/list answer judged and (kind) with answers whose window overlapped an AddRoot / RemoveRoot call.",
+	r.Finish("race-detector build of the harness; per child one workload x GOMAXPROCS in {2,4,16}: servers (Streamable JSON / SSE, legacy SSE with 3 ms keep-alives, stdio) serving 6 sessions x 4 goroutines of calls while entries are registered and unregistered, notifications are sent and broadcast, roots requests are issued, listening streams (plain and resuming with Last-Event-ID while senders are pushing to the session) and sessions come and go, and handlers read and write the Session object they were handed; clients (Streamable JSON / SSE, legacy SSE, stdio) used from 6 calling goroutines while notification handlers and the roots provider change, state getters are read, the server pushes notifications, and TerminateSession / Close run with calls in flight; clients of the same four kinds holding a DefaultRootsProvider (clientmut:*, mutators.go) whose application goroutines AddRoot / RemoveRoot (unique URIs, no I/O or shared atomics in those goroutines), swap SetRootsProvider between the provider and two delegating wrappers, register / unregister notification handlers for the methods that are arriving, send roots/list_changed, read the getters (stdio: process info, RestartProcess every other round) while 4 goroutines x 12 calls make the server issue roots/list (tool rootsprobe returns the URIs ListRoots gave it) and the server pushes notifications, and server-side goroutines register / unregister notification handlers on all three server kinds, resource templates, resources lists, tools and read GetTools / GetTool / GetActiveSessions / SendFilteredNotification. Value oracle for roots snapshots (provider level: each GetRoots seen by the delegating wrapper; server level: each rootsprobe answer, window = around CallTool): no URI twice, only URIs whose AddRoot began before the answer was received, every URI whose AddRoot returned before the request was issued and whose RemoveRoot had not begun when the answer was received, no URI whose RemoveRoot returned before the request was issued (monotonic-clock stamps, 20 us slack counted as concurrent). Lifecycle entry points (lifecycle:*, lifecycle.go): per round a fresh SSEServer (plain / WithHTTPServer) or Server (WithServerAddress / WithCustomServer) on a free loopback port; goroutine A runs the blocking Start, goroutine B (PRNG-chosen 0-400 us delay, port found by a dial loop, no harness synchronisation after A) sends raw HTTP requests (handshake, tools/list, tools/call, optionally an open event stream) and calls the stop entry point (SSEServer.Shutdown; the caller-owned http.Server for WithCustomServer), goroutine C registers / unregisters tools and prompts and sends / broadcasts notifications throughout; schedules serve-shutdown, shutdown-at-once (before the listener is up, then again), shutdown-x2 (two concurrent), restart (Start after Shutdown, same object), two-starts; StdioServer.StartWithContext on the real stdin/stdout of its own race-built process with the context cancelled from another goroutine while tools are registered and a library client overlaps Close / Close x2 / RestartProcess with calls; one client object of each HTTP kind with Initialize | TerminateSession, Initialize | Close, Close | Close, TerminateSession | Close, TerminateSession x2 from different goroutines. Rounds are counted per (server kind x variant x schedule); a bind failure or watchdog expiry makes the round inconclusive; behavioural observations (Shutdown returned nil but the port still accepts, Start still blocked) are counted notes only. Capability set changing under handshakes (capflip:*, capflip.go): per round a fresh server with nothing registered (Streamable stateful JSON / SSE, stateless JSON / SSE, sessions disabled, legacy SSE, stdio over in-memory pipes); 8 connected raw sessions leave a spin barrier together and run initialize + notifications/initialized, then keep opening sessions and handshaking until the round ends, while the application goroutine registers the first and second prompt, the first resource (single / multi content), a resource template, the first tool, unregisters the last tool and registers it again, in a PRNG-chosen order paced by the number of handshakes begun; counted: registration calls during which a handshake was in flight, rounds in which a capability-changing registration overlapped a handshake, rounds whose sessions were told different capability sets (no value judgement on the advertised set: the statement promises none). Every 'WARNING: DATA RACE' block is parsed from the GORACE log; reports are de-duplicated by the pair of innermost library functions. Distinct = (workload, GOMAXPROCS) that completed; for clientmut additionally (kind, GOMAXPROCS) with at least one roots/list answer judged and (kind) with answers whose window overlapped an AddRoot / RemoveRoot call.",
 		[]string{"the race detector only sees races on paths the workload drives and interleavings that occur", "reports without any library frame are harness/runtime noise and are listed as inconclusive", "roots value oracle: the process' monotonic clock orders an event that returned before another one began (stamps closer than 20 us are treated as concurrent)", "Server.SetMethodNameModifier is taken to be a set-up call (plain field write) and is not driven while serving", "lifecycle: two OVERLAPPING Start calls on a Server built WithCustomServer are not driven (both assign the caller's http.Server.Handler; starting one server object twice at the same time is taken to be outside 'one server used from many goroutines'); listeners the library offers no way to stop (http.ListenAndServe inside Start) live until the workload process ends", "lifecycle: the property speaks about data races only, so a Shutdown that returns nil while the listener keeps accepting is counted (life_note_*), not judged"})
 }
 
